@@ -5,6 +5,7 @@
 //! Modes:
 //!   gram FILE                      the AST pest_meta reads from FILE, in gram.rs's s-expression format (translator cross-check)
 //!   one HEX                        one input
+//!   file PATH                      one input per line (hex), '#' comments
 //!   exhaustive N SHARD NSHARDS     all strings of exactly N symbols over the JSON alphabet (ALPHA)
 //!   random COUNT SEED [MAXDEPTH]   random documents of every shape (whitespace variations, all scalar kinds, escapes)
 //!   near COUNT SEED                near-misses: mutations of valid documents
@@ -161,6 +162,10 @@ fn main() {
     let mut cx = Ctx { vm: pest_vm::Vm::new(rules), n: 0, ok: 0, vmdiff: 0, panics: 0, seen: HashSet::new() };
     match mode.as_str() {
         "one" => { let s = unhex(&arg(2)); case(&mut cx, &mut w, &s); }
+        "file" => {
+            let text = std::fs::read_to_string(arg(2)).expect("cannot read corpus file");
+            for line in text.lines() { let l = line.trim(); if l.is_empty() || l.starts_with('#') { continue; } let s = unhex(l); case(&mut cx, &mut w, &s); }
+        }
         "exhaustive" => {
             let len = arg_u64(2, 3) as usize; let shard = arg_u64(3, 0); let nsh = arg_u64(4, 1).max(1);
             let total = 16u64.pow(len as u32);
@@ -189,7 +194,7 @@ fn main() {
                 }
             }
         }
-        _ => { eprintln!("usage: c18 gram FILE | one HEX | exhaustive N SHARD NSHARDS | random COUNT SEED [MAXDEPTH] | near COUNT SEED | deep DEPTH"); std::process::exit(2); }
+        _ => { eprintln!("usage: c18 gram FILE | one HEX | file PATH | exhaustive N SHARD NSHARDS | random COUNT SEED [MAXDEPTH] | near COUNT SEED | deep DEPTH"); std::process::exit(2); }
     }
     writeln!(w, "#SUMMARY\tevaluations={}\tdistinct_nontrivial={}\taccepted={}\tvm_differs={}\tpanics={}", cx.n, cx.seen.len(), cx.ok, cx.vmdiff, cx.panics).unwrap();
 }
